@@ -105,12 +105,16 @@ func VX_C20_Message(args []int) {
 }
 
 // VX_C20_Args: a released/reset metadata container behaves like a new one.
-// args: nDirtyPairs, nStr, nWire
+// args: nDirtyPairs, nStr (<0: concrete leftovers), nWire
 func VX_C20_Args(args []int) {
 	vxPoolMode(1)
 	a := utils.AcquireArgs()
 	for k := 0; k < args[0]; k++ {
-		a.Add(vxString("d.k", args[1]), vxString("d.v", args[1]))
+		if args[1] < 0 { // concrete leftovers
+			a.Add("k"+string(rune('0'+k)), "val"+string(rune('0'+k)))
+		} else {
+			a.Add(vxString("d.k", args[1]), vxString("d.v", args[1]))
+		}
 	}
 	a.QueryString()
 	utils.ReleaseArgs(a)
@@ -119,8 +123,14 @@ func VX_C20_Args(args []int) {
 	f := new(utils.Args)
 	vxAssert(r.Len() == 0, "recycled Args empty")
 	wire := vxBytes("n.wire", args[2])
-	r.ParseBytes(append([]byte{}, wire...))
-	f.ParseBytes(append([]byte{}, wire...))
+	// (a malformed escape can make the parser panic - the session read loop
+	// recovers that; here only "same as fresh" is judged)
+	rp := vxParsePanics(r, append([]byte{}, wire...))
+	fp := vxParsePanics(f, append([]byte{}, wire...))
+	vxAssert(rp == fp, "recycled Args accepts what a fresh one accepts")
+	if rp || fp {
+		return
+	}
 	vxAssert(r.Len() == f.Len(), "same number of pairs as fresh")
 	vxAssert(bytes.Equal(r.QueryString(), f.QueryString()), "same content as fresh")
 	var rk, rv, fk, fv [][]byte
@@ -133,6 +143,16 @@ func VX_C20_Args(args []int) {
 		}
 	}
 	vxCover("c20.args")
+}
+
+func vxParsePanics(a *utils.Args, b []byte) (panicked bool) {
+	defer func() {
+		if recover() != nil {
+			panicked = true
+		}
+	}()
+	a.ParseBytes(b)
+	return false
 }
 
 // VX_C20_XferPipe: Reset forgets every filter. args: nDirty
